@@ -1,5 +1,6 @@
 import LoraVerif.Rt
 import LoraVerif.Gen.Modulation
+import LoraVerif.Model.Bw
 import LoraVerif.Gen.PhyArith
 import LoraVerif.Spec.SemtechArith
 /-!
@@ -25,6 +26,8 @@ def Out.ofOption {α} : Option α → Out α
   | none => .panic
 
 /-! ## C15: `create_modulation_params` (LDRO decision) and where `set_modulation_params` puts the flag -/
+
+-- `specBw : Bandwidth → Spec.Airtime.Bw` is in `Model/Bw.lean` (same namespace; C16's driver uses it too)
 
 /-- `spreading_factor_value(sf)?` succeeds: SX127x rejects SF5 -/
 def sfOk (c : Chip) (sf : SpreadingFactor) : Bool :=
